@@ -235,11 +235,12 @@ theorem psdRow_scale (resp : Resp) (c Q f T0 am g2m df4 df8 df12 : ℝ) (hc : 0 
 
 /-! ### the domain of the formulas: `f·T0 > 1` (`absacce`: `ln N0 > 0`, `Dt_b > 0`), `f·T0 > 0` (`pvelo`) -/
 
-/-- the inputs for which the code's `Dt_b` are positive (no `nan` from the roots) -/
+/-- the inputs for which the code's `Dt_b` are positive (no `nan` from the roots) and `ln N0 ≠ 0`
+(no division by zero in `G1`, `G2`, `Gmax`) -/
 def InDomain (resp : Resp) (f T0 : ℝ) : Prop :=
   match resp with
   | .absacce => 1 < f * T0
-  | .pvelo => 0 < f * T0
+  | .pvelo => 0 < f * T0 ∧ f * T0 ≠ 1
 
 theorem psdRow_dt_pos (resp : Resp) (Q f T0 am g2m df4 df8 df12 : ℝ) (h : InDomain resp f T0) :
     0 < (psdRow resp Q f T0 am g2m df4 df8 df12).dt4 ∧
@@ -254,6 +255,7 @@ theorem psdRow_dt_pos (resp : Resp) (Q f T0 am g2m df4 df8 df12 : ℝ) (h : InDo
     push_cast
     exact ⟨h4, h8, h12⟩
   · simp only [InDomain] at h
+    have h0 := h.1
     simp only [psdRow]
     push_cast
     exact ⟨by positivity, by positivity, by positivity⟩
